@@ -2169,9 +2169,11 @@ func (d *Data) ReceiveBlocks(ctx *datastore.VersionedCtx, r io.ReadCloser, scale
 			numBytes := int(binary.LittleEndian.Uint32(hdrBytes[12:16]))
 			bcoord := dvid.ChunkPoint3d{bx, by, bz}.ToIZYXString()
 			tk := NewBlockTKeyByCoord(scale, bcoord)
-			compressed := make([]byte, numBytes)
-			n, readErr = io.ReadFull(r, compressed)
-			if n != numBytes || (readErr != nil && readErr != io.EOF) {
+			// numBytes comes from the payload: read what actually arrives instead of allocating on its word.
+			var compressed []byte
+			compressed, readErr = ioutil.ReadAll(io.LimitReader(r, int64(numBytes)))
+			n = len(compressed)
+			if n != numBytes || readErr != nil {
 				return fmt.Errorf("error reading %d bytes for block %s: %d read (%v)", numBytes, bcoord, n, readErr)
 			}
 
